@@ -104,6 +104,8 @@ class LtlAstParserVisitor(LtlParserVisitor):
 
             var_io = self.var_io_dict[id_head]
             node = Variable(id_head, id_tail, var_io)
+            # a variable that a formula reads is an input, also when an earlier assertion writes to one of its fields
+            self.free_vars.add(id_head)
             self.phi_name_to_node_dict[node.name] = node
 
         return node
